@@ -162,7 +162,7 @@ check(
 check(
     "C06",
     "other",
-    "ownership bounded model checking of the final mypyc IR: for every function of the mypyc test-data programs that build with the IR fixture (quick: 13 files, ~1100 functions; thorough: all irbuild/run/lowering/opt files) and of a generated corpus of ownership-relevant program shapes (displays, one-branch definitions, loops, try/finally, tuples), the FuncIR produced by the real compile_scc_to_ir pipeline is encoded in passive form over its CFG with loops peeled twice (per value: owned-reference count and error flag, ITE-merged; IS_ERROR branches tied to error flags; all other branch outcomes and op error flags free) and z3 discharges, per return and per decrement, that every value is released exactly once on every path incl. every exceptional exit and never over-released. Static half only.",
+    "ownership bounded model checking of the final mypyc IR: for every function of the mypyc test-data programs that build with the IR fixture (quick: 13 files, ~1100 functions; thorough: all irbuild/run/lowering/opt files) and of a generated corpus of ownership-relevant program shapes (displays, one-branch definitions, loops, try/finally, tuples), the FuncIR produced by the real compile_scc_to_ir pipeline is encoded in passive form over its CFG with loops peeled twice (per value: owned-reference count and error flag, ITE-merged; IS_ERROR branches tied to error flags; all other branch outcomes and op error flags free) and z3 discharges, per return and per decrement, that every value is released exactly once on every path incl. every exceptional exit and never over-released. Static half only. (K-glue) the C constructor (tp_new) emitted by the real emitclass.generate_new_for_class, compiled to LLVM IR with Py_DECREF redirected to a recorded external call: the new object is released exactly once on a failing __init__, never when returned; __init__'s result exactly once.",
     "trusted: z3; op ownership metadata (stolen/is_borrowed/error_kind/is_xdec) and its faithful emission as C; stated modelling rules (error value transfers nothing, unborrow hands over the aggregate, slot release before set_mem, out-parameter registers, dropped branch targets); loops peeled twice; dynamic leak observation, use-after-release of borrowed values and always-defined attributes outside",
     "bounded model checking of compiler IR with z3 (passive form, all paths and error flags)",
     "DESIGN.md 4/C06",
